@@ -352,6 +352,8 @@ def run(rep, tier):
     from . import c19
     c19.bbox_tables(rep, F, rule="R13.8")
     from . import gt_tables
+    from . import mapcoords
+    mapcoords.run(rep, F, "R13.10")
     gt_tables.run(rep, F, "R13.9", select={"Rect::center", "Rect::min", "Rect::max"})
 
 
